@@ -77,6 +77,43 @@ func c16(c *core.Check) {
 		c.Unknown("anchor", trimRel+".(Trimmer).markType", "", "missing")
 	}
 
+	// every function that follows a Reference into an included AST (Includes[x.Reference.Index]) also marks that include
+	{
+		tpk := prog.Pkg(trimRel)
+		n := 0
+		for _, file := range tpk.Syntax {
+			for _, d := range file.Decls {
+				fd, ok := d.(*ast.FuncDecl)
+				if !ok || fd.Body == nil {
+					continue
+				}
+				follows := map[string]bool{}
+				marks := map[string]bool{}
+				ast.Inspect(fd.Body, func(nd ast.Node) bool {
+					switch x := nd.(type) {
+					case *ast.IndexExpr:
+						if strings.HasSuffix(rules.ExprString(x.X), ".Includes") && strings.HasSuffix(rules.ExprString(x.Index), ".Reference.Index") {
+							follows[rules.ExprString(x)] = true
+						}
+					case *ast.CallExpr:
+						if fn := rules.Callee(tpk.TypesInfo, x); fn != nil && fn.Name() == "markInclude" && len(x.Args) >= 1 {
+							marks[rules.ExprString(x.Args[0])] = true
+						}
+					}
+					return true
+				})
+				for f := range follows {
+					n++
+					key := fmt.Sprintf("%s/follow %s", core.FuncKey(trimRel, fd), f)
+					c.Decide(marks[f], "follow-marks-include", key, prog.Rel(fd.Pos()), "the function that follows this reference into the included file also marks the include",
+						"a reference is followed into "+f+" but this function never marks that include: what is kept from the included file loses its include line (invalid IDL after trimming)")
+				}
+			}
+		}
+		c.Analysed["include_follow_sites"] = n
+		c.Min("follow-marks-include", 3)
+	}
+
 	// (2) siblings in traversal
 	tr := prog.FuncDecl(trimRel, "Trimmer.traversal")
 	if tr == nil {
